@@ -35,6 +35,10 @@ func Adj(t *rapid.T, label string) uint8 {
 
 func runLen(t *rapid.T, label string, max int) int {
 	var n int
+	if max >= 600 && rapid.IntRange(0, 39).Draw(t, label+".huge") == 0 {
+		// counts around the 8-bit boundary: a circle drawn as 300 segments is ordinary use
+		return rapid.SampledFrom([]int{255, 256, 257, 300, 513}).Draw(t, label+".hugelen")
+	}
 	switch rapid.IntRange(0, 9).Draw(t, label+".class") {
 	case 0, 1, 2, 3, 4:
 		n = 1
@@ -100,7 +104,7 @@ func Program(t *rapid.T, cfg ProgCfg) []ops.Op {
 		cfg.MaxBlocks = 4
 	}
 	if cfg.MaxRun == 0 {
-		cfg.MaxRun = 80
+		cfg.MaxRun = 600
 	}
 	if cfg.MaxVerbs == 0 {
 		cfg.MaxVerbs = 6
